@@ -27,7 +27,7 @@ def gen_program(rng):
     for u in range(n):
         src = ["#include <stdio.h>", "#include <string.h>", "#include <stdint.h>"]
         src.append(f"int shared_data{u}[4] = {{{u}, {u + 1}, {u + 2}, {u + 3}}};")
-        src.append(f"__thread int tls_init{u} = {u * 3 + 1}; __thread int tls_zero{u}; static __thread int tls_local{u} = {u + 40};")
+        src.append(f"__thread int tls_init{u} = {u * 3 + 1}; __thread int tls_zero{u}; static __thread int tls_local{u} = {u + 40}; static __thread char tls_byte{u}; __thread char tls_pubbyte{u} = {u + 1};")
         for k in range(u, nsym, n):
             src.append(f"int exported_{k}(int x) {{ return x * {k % 7 + 1} + {k}; }}")
         src.append(f"static const char *words{u}[] = {{\"common-prefix-and-tail\", \"tail\", \"and-tail\", \"unit-{u}\", \"x\", \"\"}};")
@@ -42,7 +42,7 @@ def gen_program(rng):
                    f"for (int i = 0; i < 6; i++) s += strlen(words{u}[i]) * (i + 1) + (words{u}[i][0] ? words{u}[i][0] : 7); "
                    f"for (int i = 0; i < 3; i++) s += odds{u}[i].f(i) + strlen(odds{u}[i].p) + odds{u}[i].c; "
                    f"for (unsigned i = 0; i < sizeof many{u} / sizeof *many{u}; i++) s += *(const int *)many{u}[i]; "
-                   f"tls_zero{u} += x; tls_local{u} += 2; s += tls_init{u} + tls_zero{u} + tls_local{u} + shared_data{(u + 1) % n}[x & 3]; return s + {nxt}; }}")
+                   f"tls_zero{u} += x; tls_local{u} += 2; tls_byte{u} += 1; s += tls_init{u} + tls_zero{u} + tls_local{u} + tls_byte{u} + tls_pubbyte{u} + shared_data{(u + 1) % n}[x & 3]; return s + {nxt}; }}")
         units.append("\n".join(src) + "\n")
     main = ["#include <stdio.h>", "#include <string.h>", "#ifdef DYN", "#define _GNU_SOURCE", "#include <dlfcn.h>", "#endif", "long unit0(int);"]
     main.append("static int ctor_ran; __attribute__((constructor)) static void c(void) { ctor_ran = 42; }")
@@ -96,10 +96,12 @@ def run(chk, replay=None):
             n = len(units)
             cmds = []
             for i in range(n):
-                cmds.append(f"gcc -O1 -fPIE {'-DDYN' if i == n - 1 else ''} -c u{i}.c -o pie{i}.o")
-                cmds.append(f"gcc -O1 -fPIE -c u{i}.c -o spie{i}.o")
-                cmds.append(f"gcc -O1 -fno-pic -fno-pie {'-DDYN' if i == n - 1 else ''} -c u{i}.c -o nop{i}.o")
-                cmds.append(f"gcc -O1 -fno-pic -fno-pie -c u{i}.c -o st{i}.o")
+                tm = r.choice(["", "", "-ftls-model=global-dynamic", "-ftls-model=local-dynamic", "-ftls-model=initial-exec"])      # every model is valid in an executable
+                pic = r.choice(["-fPIE", "-fPIC"])
+                cmds.append(f"gcc -O1 {pic} {tm} {'-DDYN' if i == n - 1 else ''} -c u{i}.c -o pie{i}.o")
+                cmds.append(f"gcc -O1 {pic} {tm} -c u{i}.c -o spie{i}.o")
+                cmds.append(f"gcc -O1 -fno-pic -fno-pie {tm} {'-DDYN' if i == n - 1 else ''} -c u{i}.c -o nop{i}.o")
+                cmds.append(f"gcc -O1 -fno-pic -fno-pie {tm} -c u{i}.c -o st{i}.o")
             rc, out = sh(f"cd {d} && " + " && ".join(cmds), timeout=600)
             if rc:
                 chk.tie_break("gcc failed on a generated program", {"seeds": [seed], "msg": out[-400:]})
